@@ -1,17 +1,352 @@
-import GqlgenVerif.Model.Ws
-import GqlgenVerif.Model.WsSpec
+import GqlgenVerif.Lemmas.Ws
 /-!
 # C11 — websocket sessions follow the subscription protocol (property theorems)
+
+All theorems quantify over every configuration `cfg` (both subprotocols, any ticker set, stubborn or
+cooperative resolvers, with or without close reason / init timeout) and every `Reachable cfg s`: every
+client message sequence (valid, malformed, any length), every resolver behaviour (emit / end /
+AddSubscriptionError / panic, any number of operations), server-side cancellation, timeouts, and
+every interleaving of the reader, the operation goroutines, the tickers and `closeOnCancel`.
+
+The message-type tables and the socket-write sites are regenerated from `/repo` on every run
+(`Gen/WsTables.lean`); the model (`Model/Ws.lean`) decodes and encodes through them, so the theorems
+are re-proved against what `toMessage` / `fromMessage` say now.
+
+Partial: liveness ("all connection goroutines end") is not a safety property of the model and is only
+observed on the implementation; what is proved is `quiescent_…`: *when* every thread has finished, the
+close callback ran exactly once, nothing is registered and every operation context is cancelled.
 -/
 namespace GqlgenVerif.Props.C11
-open GqlgenVerif GqlgenVerif.Ws GqlgenVerif.Gen.WsTables
+open GqlgenVerif GqlgenVerif.Ws GqlgenVerif.Gen.WsTables GqlgenVerif.Sched
 
-/-- `writes_serialised`, source half (regenerated from websocket.go on every run): every call that
-writes to the socket lies between `c.mu.Lock()` and `c.mu.Unlock()`, except the one in `Do`, which
-runs before the connection object (and any second goroutine) exists. -/
+/-! ## no operation before the accepted handshake -/
+
+/-- Every event of an operation (its acceptance, the start of its goroutine, every data / error /
+complete frame) is preceded in the history by the InitFunc's acceptance *and* by the
+`connection_ack` frame. -/
+theorem no_exec_before_init_ack (cfg : Cfg) (s : State) (h : Reachable cfg s) :
+    Precedes Ev.isInitAccepted Ev.isOperation s.trace ∧ Precedes Ev.isAck Ev.isOperation s.trace :=
+  ⟨(allInv_reachable h).hist.init_first, (allInv_reachable h).hist.ack_first⟩
+
+/-- state form: operations exist only on an initialised connection -/
+theorem no_operation_uninitialised (cfg : Cfg) (s : State) (h : Reachable cfg s)
+    (hi : s.initialised = false) : s.ops = [] ∧ s.active = [] :=
+  ⟨((allInv_reachable h).basic.uninit hi).2.2.1, ((allInv_reachable h).basic.uninit hi).2.2.2.1⟩
+
+/-! ## per operation id: `(accept data* (error | complete | error complete))*` -/
+
+/-- The history, projected to any id, is accepted by the protocol monitor: after the server accepted a
+start for the id come results, then `error`, `complete` or `error complete`; nothing else until the
+next accepted start.  (`bad` is absorbing, so this holds for every prefix of the history.) -/
+theorem frames_follow_protocol (cfg : Cfg) (s : State) (h : Reachable cfg s) (id : String) :
+    phase id s.trace ≠ .bad :=
+  (allInv_reachable h).phases.ok id
+
+/-- … and whenever no operation is open under the id (nothing registered, the reader not in the middle
+of answering a start for it) on an open socket, the last stream under that id has been terminated. -/
+theorem released_id_was_terminated (cfg : Cfg) (s : State) (h : Reachable cfg s) (id : String)
+    (hopen : s.closed = false) (hreg : isActive s id = false) (hfocus : focusOn s.todo id = none) :
+    phase id s.trace = .idle ∨ phase id s.trace = .errd := by
+  have := (allInv_reachable h).phases.sim hopen id
+  unfold Expected at this; rw [hfocus, hreg] at this; simpa using this
+
+/-- a registered id has an open stream -/
+theorem registered_id_is_live (cfg : Cfg) (s : State) (h : Reachable cfg s) (id : String)
+    (hopen : s.closed = false) (hreg : isActive s id = true) : phase id s.trace = .live := by
+  have ai := allInv_reachable h
+  have := ai.phases.sim hopen id
+  unfold Expected at this; rw [focusOn_none_of_active ai.registry hreg, hreg] at this; simpa using this
+
+/-- after a `complete` frame for an id there is no further frame for that id (no result, no error, no
+second complete) unless the server accepted a new start for the id in between -/
+theorem nothing_after_complete (cfg : Cfg) (s : State) (h : Reachable cfg s) (id : String)
+    (a b c : List Ev) (w info : String) (e : Ev)
+    (htr : s.trace = a ++ .frame .complete w id info :: b ++ e :: c) (he : e.isFrameFor id) :
+    ∃ x, x ∈ b ∧ x = .accept id :=
+  monitor_after_complete (by rw [← htr]; exact frames_follow_protocol cfg s h id) he
+
+/-- at most one completion per accepted start -/
+theorem at_most_one_complete (cfg : Cfg) (s : State) (h : Reachable cfg s) (id : String)
+    (a b c : List Ev) (w info w' info' : String)
+    (htr : s.trace = a ++ .frame .complete w id info :: b ++ .frame .complete w' id info' :: c) :
+    ∃ x, x ∈ b ∧ x = .accept id :=
+  nothing_after_complete cfg s h id a b c w info _ htr (by simp [Ev.isFrameFor])
+
+/-- no result after an error -/
+theorem no_next_after_error (cfg : Cfg) (s : State) (h : Reachable cfg s) (id : String)
+    (a b c : List Ev) (w info w' info' : String)
+    (htr : s.trace = a ++ .frame .error w id info :: b ++ .frame .data w' id info' :: c) :
+    ∃ x, x ∈ b ∧ x = .accept id :=
+  monitor_after_error (by rw [← htr]; exact frames_follow_protocol cfg s h id)
+
+/-- two running operations never share an id (the mechanism behind the per-id theorems) -/
+theorem live_operations_have_distinct_ids (cfg : Cfg) (s : State) (h : Reachable cfg s)
+    (o o' : Op) (ho : o ∈ s.ops) (ho' : o' ∈ s.ops) (hd : o.done = false) (hd' : o'.done = false)
+    (hid : o.id = o'.id) : o = o' := by
+  have r := (allInv_reachable h).registry
+  have h1 := r.live_active o ho hd
+  have h2 := r.live_active o' ho' hd'
+  have := r.active_fun _ h1 _ h2 hid
+  simp at this
+  exact r.inst_inj o ho o' ho' this.2
+
+/-- a start for an id that is still registered is refused: nothing is accepted or executed, the
+connection is closed with 4409 -/
+theorem duplicate_start_is_refused (cfg : Cfg) (s : State) (w id : String) (pl : Payload) (tag : Nat)
+    (hw : w ∈ cfg.proto.all) (hs : cfg.proto.toMessage w = some .start)
+    (hdup : isActive s id = true) :
+    (runHandle cfg (.msg w id pl tag) s).todo = [.send .connectionError, .close 4409, .finish] ∧
+    (runHandle cfg (.msg w id pl tag) s).trace = s.trace := by
+  simp [runHandle, hw, hs, hdup]
+
+/-! ## stop and close cancel -/
+
+/-- Executing the reader's `stop id` section cancels the context of the running operation with that id. -/
+theorem stop_cancels_operation (cfg : Cfg) (s s' : State) (h : Reachable cfg s) (id : String)
+    (rest : List Sec) (ht : s.todo = .stop id :: rest) (hf : fire cfg .sec s = some s')
+    (o : Op) (ho : o ∈ s.ops) (hid : o.id = id) (hd : o.done = false) :
+    ∃ o', o' ∈ s'.ops ∧ o'.inst = o.inst ∧ o'.cancelled = true := by
+  have r := (allInv_reachable h).registry
+  have hmem := r.live_active o ho hd
+  simp only [fire, ht] at hf
+  cases hf
+  simp only [runSec]
+  have hfind : ∃ e, s.active.find? (fun e => e.1 == id) = some e := by
+    cases hfe : s.active.find? (fun e => e.1 == id) with
+    | some e => exact ⟨e, rfl⟩
+    | none =>
+      have := List.find?_eq_none.1 hfe (o.id, o.inst) hmem
+      simp [hid] at this
+  obtain ⟨e, hfe⟩ := hfind
+  have he_mem := List.mem_of_find?_eq_some hfe
+  have he_key : e.1 = id := by simpa using List.find?_some hfe
+  have : e = (o.id, o.inst) := r.active_fun e he_mem _ hmem (by rw [he_key, hid])
+  subst this
+  rw [show s.active.find? (fun e => e.1 == id) = some (o.id, o.inst) from hfe]
+  refine ⟨{ o with cancelled := true }, ?_, rfl, rfl⟩
+  simp only [List.mem_map]
+  exact ⟨o, ho, by simp⟩
+
+/-- the client's stop / complete message is turned into exactly that section -/
+theorem stop_message_schedules_stop (cfg : Cfg) (s : State) (w id : String) (pl : Payload) (tag : Nat)
+    (hw : w ∈ cfg.proto.all) (hs : cfg.proto.toMessage w = some .stop) :
+    (runHandle cfg (.msg w id pl tag) s).todo = [.stop id] := by
+  simp [runHandle, hw, hs]
+
+/-- Once the connection is closed - by terminate, by a protocol error, by the duplicate-id refusal, by
+`closeOnCancel` after the reader ended (client gone, undecodable frame, read deadline) or after the
+server cancelled the context, by the init timeout - every operation that is still running has a
+cancelled context; this includes operations started from messages that were already queued. -/
+theorem close_cancels_all_active (cfg : Cfg) (s : State) (h : Reachable cfg s) (hc : s.closed = true)
+    (o : Op) (ho : o ∈ s.ops) (hd : o.done = false) : o.ctxDone s = true := by
+  rcases (allInv_reachable h).cancel hc o ho hd with h1 | h1 <;> simp [Op.ctxDone, h1]
+
+/-- the closing step itself calls the cancel function of every running operation -/
+theorem close_step_cancels_registered (cfg : Cfg) (s : State) (h : Reachable cfg s) (code : Nat)
+    (hopen : s.closed = false) (o : Op) (ho : o ∈ (doClose code s).ops) (hd : o.done = false) :
+    o.cancelled = true := by
+  have r := (allInv_reachable h).registry
+  rw [doClose_eq] at ho; simp only [hopen] at ho
+  simp only [Bool.false_eq_true, if_false, cancelActive] at ho
+  obtain ⟨p, hp, rfl⟩ := List.mem_map.1 ho
+  have hpd : p.done = false := by split at hd <;> simpa using hd
+  have hpa := r.live_active p hp hpd
+  have : (s.active.any fun e => e.2 == p.inst) = true := List.any_eq_true.2 ⟨(p.id, p.inst), hpa, by simp⟩
+  rw [if_pos this]
+
+/-! ## the close callback -/
+
+/-- CloseFunc runs at most once, exactly when the connection has been closed, and the history agrees -/
+theorem close_callback_once (cfg : Cfg) (s : State) (h : Reachable cfg s) :
+    s.closeCount ≤ 1 ∧ (s.closed = true ↔ s.closeCount = 1) ∧
+    (s.trace.filter Ev.isCloseFunc).length = s.closeCount := by
+  have ai := allInv_reachable h
+  have hc := ai.basic.count
+  refine ⟨?_, ?_, ai.hist.cf⟩
+  · rw [hc]; split <;> simp
+  · rw [hc]; cases s.closed <;> simp
+
+/-- when every thread of the connection has finished, CloseFunc has run exactly once, no id is
+registered any more and every operation's context is cancelled -/
+theorem quiescent_closed_once_and_clean (cfg : Cfg) (s : State) (h : Reachable cfg s) (hq : Quiescent s) :
+    s.closeCount = 1 ∧ s.active = [] ∧ ∀ o ∈ s.ops, o.ctxDone s = true := by
+  have ai := allInv_reachable h
+  obtain ⟨hr, ht, hw, hops⟩ := hq
+  have hclosed : s.closed = true := by
+    cases hi : s.initialised
+    · exact ai.basic.done_uninit_closed hr hi
+    · exact ai.basic.wdone (hw hi)
+  refine ⟨by rw [ai.basic.count, hclosed]; rfl, ?_, ?_⟩
+  · cases hact : s.active with
+    | nil => rfl
+    | cons e rest =>
+      obtain ⟨o, ho, hd, _⟩ := ai.registry.active_live e (by simp [hact])
+      rw [hops o ho] at hd; cases hd
+  · intro o ho
+    -- a finished operation: its deferred function called cancel()
+    simp [Op.ctxDone, ai.doneInv o ho (hops o ho)]
+
+/-! ## frames are never written concurrently -/
+
+/-- source half (regenerated from websocket.go on every run): every call that writes to the socket
+lies between `c.mu.Lock()` and `c.mu.Unlock()`, except the one in `Do`, which runs before the
+connection object (and any second goroutine) exists.  Model half: every step of `Ws.fire` is one such
+critical section, so the history is a sequence of whole frames by construction. -/
 theorem writes_serialised_sites :
     ∀ site ∈ writeSites, site.1 ≠ "Do" → site.2.2 = true := by decide
 
 example : ∃ site ∈ writeSites, site.1 ≠ "Do" := by decide
+
+/-! ## the regenerated tables -/
+
+/-- results, errors and completions are real frames under both subprotocols (never noOp, never a
+`fromMessage` error) and carry three different wire types, so the per-id stream is observable -/
+theorem operation_frames_distinguishable (p : Proto) :
+    ∃ wd we wc, p.fromMessage .data = some (some wd) ∧ p.fromMessage .error = some (some we) ∧
+      p.fromMessage .complete = some (some wc) ∧ wd ≠ we ∧ wd ≠ wc ∧ we ≠ wc := by
+  cases p
+  · exact ⟨"data", "error", "complete", by decide⟩
+  · exact ⟨"next", "error", "complete", by decide⟩
+
+/-- the handshake answer is a real frame under both subprotocols -/
+theorem ack_is_written (p : Proto) : ∃ w, p.fromMessage .connectionAck = some (some w) := ack_is_frame p
+
+/-- every wire type `toMessage` accepts is one `UnmarshalText` lets through (no dead arm), and every
+wire type `fromMessage` produces is in the subprotocol's list as well -/
+theorem toMessage_within_all (p : Proto) (w : String) (h : p.toMessage w ≠ none) : w ∈ p.all := by
+  cases p <;> simp only [Proto.toMessage, gqlwsToMessage, twsToMessage, Proto.all, gqlwsAll, twsAll] at h ⊢ <;>
+    (repeat' split at h) <;> simp_all
+
+theorem fromMessage_within_all (p : Proto) (t : MT) (w : String) (h : p.fromMessage t = some (some w)) :
+    w ∈ p.all := by
+  cases p <;> cases t <;>
+    simp_all [Proto.fromMessage, gqlwsFromMessage, twsFromMessage, Proto.all, gqlwsAll, twsAll] <;>
+    (subst h; decide)
+
+/-- the vocabulary by which a client starts and stops operations and opens the connection -/
+theorem start_stop_init_wire (p : Proto) (w : String) :
+    (p.toMessage w = some .start → (p = .gqlws ∧ w = "start") ∨ (p = .tws ∧ w = "subscribe")) ∧
+    (p.toMessage w = some .stop → (p = .gqlws ∧ w = "stop") ∨ (p = .tws ∧ w = "complete")) ∧
+    (p.toMessage w = some .init → w = "connection_init") := by
+  cases p <;> simp only [Proto.toMessage, gqlwsToMessage, twsToMessage] <;> refine ⟨?_, ?_, ?_⟩ <;>
+    intro h <;> (repeat' split at h) <;> simp_all
+
+theorem subprotocol_names : gqlwsSubprotocol = "graphql-ws" ∧ twsSubprotocol = "graphql-transport-ws" := by
+  decide
+
+/-- the close codes of the model are the ones `websocket.go` passes to `c.close` in the same functions -/
+theorem close_codes_tie :
+    (∀ c ∈ closeSites, c.2 = 1000 ∨ c.2 = 1002 ∨ c.2 = 4409) ∧
+    ("init", 1002) ∈ closeSites ∧ ("init", 1000) ∈ closeSites ∧ ("run", 1000) ∈ closeSites ∧
+    ("run", 1002) ∈ closeSites ∧ ("run", 4409) ∈ closeSites ∧ ("closeOnCancel", 1000) ∈ closeSites := by
+  decide
+
+/-- source facts behind two atomicity assumptions of the model (regenerated from websocket.go):
+`c.active` is only changed inside `c.mu`; the operation goroutine writes its terminating frames and
+deletes its id in *one* critical section (`Ws.opFinish` is one step); the `start` arm of `run` tests
+`c.active[m.id]` under the lock, refuses a duplicate by closing with 4409 *and returning*, and only
+then calls `subscribe` (`Ws.runHandle`, `start` case). -/
+theorem registry_sections_tie :
+    activeSections = [("subscribe", ["c.active[id]="]), ("subscribe", ["c.me.Send", "delete(c.active)"])] ∧
+    startArm = ["lookup c.active[m.id] locked=true", "if duplicate: close 4409 return=true", "subscribe"] := by
+  decide
+
+/-! ## non-vacuity: concrete reachable histories on which the theorems above speak -/
+
+def cfgT (stubborn : Bool) : Cfg :=
+  { proto := .tws, ticks := [.pong], stubborn := stubborn, closeReason := false, initTimeout := false }
+def cfgG : Cfg :=
+  { proto := .gqlws, ticks := [.keepAlive], stubborn := false, closeReason := true, initTimeout := true }
+
+/-- init; subscribe 1; a result; the resolver ends; subscribe 1 again; a result; the client completes it -/
+def demo : List Action :=
+  [.clientSend (.msg "connection_init" "" .none 0), .recv,
+   .clientSend (.msg "subscribe" "1" .sub 0), .recv, .sec,
+   .deliver 0 .emit, .opStep 0, .deliver 0 (.finish .normal), .opStep 0,
+   .clientSend (.msg "subscribe" "1" .sub 1), .recv, .sec,
+   .deliver 1 .emit, .opStep 1,
+   .clientSend (.msg "complete" "1" .none 0), .recv, .sec, .opCancel 1]
+
+def demoState : State := (run (cfgT false) demo State.initial).getD State.initial
+
+theorem demo_reachable : Reachable (cfgT false) demoState :=
+  reachable_run (reachable_initial _) (show run (cfgT false) demo State.initial = some demoState by decide)
+
+example : demoState.trace =
+    [.initAccepted, .frame .connectionAck "connection_ack" "" "-",
+     .accept "1", .exec 0, .frame .data "next" "1" "0.0", .frame .complete "complete" "1" "-",
+     .accept "1", .exec 1, .frame .data "next" "1" "1.0", .frame .complete "complete" "1" "-"] := by decide
+
+/-- `at_most_one_complete` applied to that history finds the second accepted start between the two completions -/
+example : ∃ x, x ∈ [Ev.accept "1", .exec 1, .frame .data "next" "1" "1.0"] ∧ x = .accept "1" :=
+  at_most_one_complete (cfgT false) demoState demo_reachable "1"
+    [.initAccepted, .frame .connectionAck "connection_ack" "" "-", .accept "1", .exec 0, .frame .data "next" "1" "0.0"]
+    [.accept "1", .exec 1, .frame .data "next" "1" "1.0"] [] "complete" "-" "complete" "-" (by decide)
+
+example : phase "1" demoState.trace = .idle ∧ isActive demoState "1" = false ∧ demoState.closed = false := by decide
+
+/-- an error frame followed, after a new start, by results (hypotheses of `no_next_after_error`) -/
+def demoErr : List Action :=
+  [.clientSend (.msg "connection_init" "" .none 0), .recv,
+   .clientSend (.msg "start" "7" .sub 0), .recv, .sec,
+   .deliver 0 .adderr, .opStep 0, .deliver 0 (.finish .panic), .opStep 0,
+   .clientSend (.msg "start" "7" .badq 0), .recv, .sec, .sec,
+   .clientSend (.msg "start" "7" .sub 1), .recv, .sec, .deliver 1 .emit, .opStep 1, .tick .keepAlive]
+
+def demoErrState : State := (run cfgG demoErr State.initial).getD State.initial
+
+theorem demoErr_reachable : Reachable cfgG demoErrState :=
+  reachable_run (reachable_initial _) (show run cfgG demoErr State.initial = some demoErrState by decide)
+
+example : demoErrState.trace =
+    [.initAccepted, .frame .connectionAck "connection_ack" "" "-", .frame .keepAlive "ka" "" "-",
+     .accept "7", .exec 0, .frame .error "error" "7" "P0+E0", .frame .complete "complete" "7" "-",
+     .accept "7", .frame .error "error" "7" "-", .frame .complete "complete" "7" "-",
+     .accept "7", .exec 1, .frame .data "data" "7" "1.0", .frame .keepAlive "ka" "" "-"] := by decide
+
+example : phase "7" demoErrState.trace = .live ∧ isActive demoErrState "7" = true := by decide
+
+/-- a duplicate start, a stop and a terminate against stubborn resolvers: the running operations end
+up with cancelled contexts although they never finish -/
+def demoStubborn : List Action :=
+  [.clientSend (.msg "connection_init" "" .obj 0), .recv,
+   .clientSend (.msg "subscribe" "a" .sub 0), .recv, .sec,
+   .clientSend (.msg "subscribe" "b" .sub 1), .recv, .sec,
+   .clientSend (.msg "complete" "a" .none 0), .recv]
+
+def stubbornBeforeStop : State := (run (cfgT true) demoStubborn State.initial).getD State.initial
+def stubbornAfterStop : State := (fire (cfgT true) .sec stubbornBeforeStop).getD State.initial
+def stubbornClosed : State :=
+  (run (cfgT true) [.clientSend (.msg "subscribe" "b" .sub 2), .recv, .sec, .sec, .sec] stubbornAfterStop).getD State.initial
+
+theorem stubborn_reachable : Reachable (cfgT true) stubbornBeforeStop :=
+  reachable_run (reachable_initial _)
+    (show run (cfgT true) demoStubborn State.initial = some stubbornBeforeStop by decide)
+
+/-- hypotheses of `stop_cancels_operation` hold here, and its conclusion is what the model computes -/
+example : stubbornBeforeStop.todo = [.stop "a"] ∧
+    fire (cfgT true) .sec stubbornBeforeStop = some stubbornAfterStop ∧
+    stubbornAfterStop.ops.map (fun o => (o.id, o.done, o.cancelled)) = [("a", false, true), ("b", false, false)] := by
+  decide
+
+/-- hypotheses of `duplicate_start_is_refused` and `close_cancels_all_active`: the second start for "b"
+closes the connection with 4409, CloseFunc runs once, and the stubborn operation "b" is cancelled -/
+example : isActive stubbornAfterStop "b" = true ∧ stubbornClosed.closed = true ∧ stubbornClosed.closeCount = 1 ∧
+    stubbornClosed.ops.map (fun o => (o.id, o.done, o.cancelled)) = [("a", false, true), ("b", false, true)] ∧
+    stubbornClosed.trace.filter Ev.isCloseFunc = [.closeFunc 4409] := by
+  decide
+
+/-- a session wound down completely is `Quiescent` (hypothesis of `quiescent_closed_once_and_clean`) -/
+def demoQuiet : State :=
+  (run (cfgT false) [.clientSend .eof, .recv, .sec, .watch] demoState).getD State.initial
+
+example : Quiescent demoQuiet ∧ demoQuiet.closeCount = 1 := by
+  refine ⟨⟨by decide, by decide, by decide, ?_⟩, by decide⟩
+  decide
+
+/-- the unreachable state that the theorems exclude is excluded for a reason: the monitor does reject
+two completions for one accepted start -/
+example : phase "1" [.accept "1", .frame .complete "complete" "1" "-", .frame .complete "complete" "1" "-"] = .bad := by
+  decide
 
 end GqlgenVerif.Props.C11
